@@ -1116,6 +1116,8 @@ class Program:
             for d in f.decorators:
                 if d.split("(")[0] in MEMO_DECORATORS:
                     continue  # transparent for call resolution; rules that care consult Func.memoised
+                if d in ("contextlib.contextmanager", "contextmanager"):
+                    continue  # a generator used in `with`: the call edge exists, the body is analysed as a function
                 if d.startswith(allowed_deco_prefix) or ".result_callback" in d or ".resultcallback" in d or ".command" in d or ".group" in d:
                     continue
                 bad.append(f"{f.loc()}: decorator {d} on {q}")
